@@ -12,7 +12,10 @@ SQLAlchemy transaction never saw, a COMMIT that fails on a deferred foreign key 
 rollback + close / inside engine.begin() / through an ORM Session) ...) and gives it back.  Configurations: QueuePool
 (size 1-2, FIFO/LIFO), SingletonThreadPool, StaticPool, AssertionPool, NullPool x
 reset_on_return in {rollback, commit, None} x ``reset`` event listener present / absent x
-engine level isolation (default, READ UNCOMMITTED, AUTOCOMMIT).
+engine level isolation (default, READ UNCOMMITTED, AUTOCOMMIT) x skip_autocommit_rollback x
+users' engine = the engine or an OptionEngine (logging_token and/or isolation_level applied on
+every connect).  Users also apply several characteristics in separate execution_options()
+calls, and invalidate + rollback + keep working on the transparently reconnected connection.
 
 Monitor: a pool ``checkout`` event listener - it runs at the moment of hand-out - reads
 the *raw* sqlite3 connection behind the spy for the connection being handed out:
@@ -42,14 +45,15 @@ META = {
     "id": "C24",
     "level": "exploration",
     "technique": "pool checkout-event monitor reading the raw DBAPI connection (spy ledger) + independent observer connection, over generated histories of state-leaving users x pool class x reset_on_return",
-    "level_text": "Seeded histories (3-9 users each) over 29 user behaviours x 5 pool classes x 3 reset modes x reset-listener x 3 engine isolation settings; every hand-out of a previously used raw connection is judged at the checkout event itself against the backend-visible state (in_transaction, uncommitted rows, committed rows, isolation level / autocommit attribute).",
+    "level_text": "Seeded histories (3-9 users each) over 31 user behaviours x 5 pool classes x 3 reset modes x reset-listener x 3 engine isolation settings; every hand-out of a previously used raw connection is judged at the checkout event itself against the backend-visible state (in_transaction, uncommitted rows, committed rows, isolation level / autocommit attribute).",
     "level_note": "SQLite only (PostgreSQL / MariaDB have no server here): 'isolation level' is PRAGMA read_uncommitted plus the sqlite3 isolation_level attribute that implements AUTOCOMMIT. Single-threaded histories (concurrency is C25's subject); overlapping holders only on QueuePool(size 2).",
     "design_ref": "DESIGN.md section 4, C24",
     "rule": "case = (configuration, list of user behaviours); non-trivial = at least one hand-out of a raw connection that an earlier user had left dirty (open transaction / changed isolation / DBAPI-level work) was judged; distinct by (config, behaviours)",
     "shards": {"quick": 8, "thorough": 16},
     "soft_s": {"quick": 150, "thorough": 800},
     "require": ["judged_checkouts", "judged_after_dirty_user", "fresh_checkouts", "reset_rollbacks_seen",
-                "isolation_changes_seen", "gc_finalized_users", "vacuous_checkouts", "exec_option_checks", "failed_commits"],
+                "isolation_changes_seen", "gc_finalized_users", "vacuous_checkouts", "exec_option_checks", "failed_commits",
+                "multi_option_users", "reconnect_users"],
     "assumptions": ["sqlite3.Connection.in_transaction reports the backend transaction state",
                     "a fresh connection's state is the engine default"],
 }
@@ -60,6 +64,7 @@ ACTIONS = [
     "iso_then_error", "gc_drop", "gc_drop_iso", "gc_drop_clean", "detach", "invalidate", "soft_invalidate",
     "iso_invalidate", "raw_leave_open", "raw_commit", "raw_via_conn", "exec_options_only", "begin_leave",
     "commit_fails_close", "commit_fails_rollback_close", "commit_fails_in_engine_begin", "session_commit_fails",
+    "multi_options", "multi_options", "invalidate_continue", "invalidate_continue",
 ]
 FAILED_COMMIT = {"commit_fails_close", "commit_fails_rollback_close", "commit_fails_in_engine_begin",
                  "session_commit_fails"}
@@ -67,7 +72,7 @@ DIRTY = {
     "leave_open", "raise_in_begin", "integrity_error", "savepoint_abandon", "iso_serializable", "iso_read_uncommitted",
     "iso_autocommit", "iso_autocommit_leave", "iso_ru_leave_open", "iso_then_error", "gc_drop", "gc_drop_iso",
     "raw_leave_open", "raw_via_conn", "begin_leave",
-} | FAILED_COMMIT
+} | FAILED_COMMIT | {"multi_options", "invalidate_continue"}
 
 
 class Monitor:
@@ -159,7 +164,13 @@ class Env:
                                  "assertion": pool.AssertionPool, "null": pool.NullPool}[pc])
         if config["engine_iso"]:
             kw["isolation_level"] = config["engine_iso"]
+        if config.get("skip_acr"):
+            kw["skip_autocommit_rollback"] = True
         self.eng = self.spy.engine(path, connect_kw={"timeout": 0.05}, **kw)
+        # what users connect through: the engine itself or an OptionEngine that applies
+        # connection characteristics (logging_token / isolation_level) on every connect
+        self.engine_opts = dict(config.get("engine_opts") or {})
+        self.ueng = self.eng.execution_options(**self.engine_opts) if self.engine_opts else self.eng
         self.table = sa.table("t", sa.column("id"))
         self.sure, self.maybe = set(), set()
         self.users_done = []
@@ -179,8 +190,13 @@ class Env:
         self.nid += 1
         return self.nid
 
-    def engine_autocommit(self):
+    def raw_autocommit(self):
+        """what a pooled DBAPI connection is at when no Connection option was applied"""
         return self.config["engine_iso"] == "AUTOCOMMIT"
+
+    def engine_autocommit(self):
+        """default of a Connection obtained from the users' engine"""
+        return (self.engine_opts.get("isolation_level") or self.config["engine_iso"]) == "AUTOCOMMIT"
 
 
 def drop_and_collect(ref):
@@ -197,8 +213,9 @@ def drop_and_collect(ref):
 def run_user(env, action, rng):
     """One user.  Updates env.sure / env.maybe with what the *specification* says about
     the ids it wrote."""
-    sa, eng, t = env.sa, env.eng, env.table
+    sa, eng, t = env.sa, env.ueng, env.table
     ac = env.engine_autocommit()
+    ac_raw = env.raw_autocommit()
     commit_reset = env.reset == "commit"
 
     def ins(conn, i):
@@ -338,7 +355,7 @@ def run_user(env, action, rng):
         if action == "raw_commit":
             rc.commit()
             env.sure.add(i)
-        elif ac:
+        elif ac_raw:
             env.sure.add(i)
         elif commit_reset:
             env.maybe.add(i)
@@ -388,6 +405,61 @@ def run_user(env, action, rng):
             c.close()
         if ac:
             env.sure.add(i)
+    elif action == "multi_options":
+        # several connection characteristics applied in SEPARATE execution_options() calls
+        levels = ["AUTOCOMMIT", "AUTOCOMMIT", "READ UNCOMMITTED", "SERIALIZABLE"]
+        steps = rng.sample([("logging_token", "u%d" % i), ("isolation_level", rng.choice(levels)),
+                            ("stream_results", True), ("isolation_level", rng.choice(levels))], rng.randint(2, 3))
+        c = eng.connect()
+        eff_ac = ac
+        for k, v in steps:
+            c.execution_options(**{k: v})
+            if k == "isolation_level":
+                eff_ac = v == "AUTOCOMMIT"
+                env.ctx.count("isolation_changes_seen")
+        env.ctx.count("multi_option_users")
+        ins(c, i)
+        how = rng.choice(["commit", "close", "close", "gc"])
+        if eff_ac or how == "commit":
+            env.sure.add(i)
+        if how == "commit":
+            c.commit()
+        if how == "gc":
+            if not eff_ac and commit_reset:
+                env.maybe.add(i)
+            ref = weakref.ref(c)
+            del c
+            drop_and_collect(ref)
+            env.ctx.count("gc_finalized_users")
+        else:
+            c.close()
+    elif action == "invalidate_continue":
+        # invalidate in the middle, roll back, go on working on the reconnected connection
+        level = rng.choice([None, "AUTOCOMMIT", "AUTOCOMMIT", "READ UNCOMMITTED"])
+        c = eng.connect()
+        believed_ac = ac
+        if level:
+            c.execution_options(isolation_level=level)
+            believed_ac = level == "AUTOCOMMIT"
+            env.ctx.count("isolation_changes_seen")
+        ins(c, i)
+        if believed_ac:
+            env.sure.add(i)
+        c.invalidate()
+        c.rollback()
+        j = env.newid()
+        ins(c, j)                      # transparent reconnect: a DBAPI connection at the pool default
+        env.ctx.count("reconnect_users")
+        end = rng.choice(["close", "close", "rollback_close", "commit_close"])
+        if ac_raw or end == "commit_close":
+            env.sure.add(j)
+        elif believed_ac:
+            env.maybe.add(j)           # whether the option is re-applied on reconnect is not prescribed
+        if end == "rollback_close":
+            c.rollback()
+        elif end == "commit_close":
+            c.commit()
+        c.close()
     elif action == "exec_options_only":
         c = eng.connect().execution_options(stream_results=True, logging_token="u%d" % i, yield_per=3)
         c.execute(sa.select(t.c.id)).all()
@@ -410,7 +482,7 @@ def run_history(ctx, path, obs, config, actions):
                 if action == "overlap":
                     # two holders at once (QueuePool size 2, reset enabled): A leaves a
                     # transaction open and returns, then B commits
-                    a, b = eng.connect(), eng.connect()
+                    a, b = env.ueng.connect(), env.ueng.connect()
                     ia, ib = env.newid(), env.newid()
                     a.execute(env.table.insert().values(id=ia))
                     a.close()
@@ -432,10 +504,10 @@ def run_history(ctx, path, obs, config, actions):
                 # a brand new Connection starts from the engine's execution options
                 if k % 3 == 2 or k == len(actions) - 1:
                     env.mon.current = "probe"
-                    with eng.connect() as c:
+                    with env.ueng.connect() as c:
                         ctx.count("exec_option_checks")
                         opts = dict(c.get_execution_options())
-                        if opts != dict(eng.get_execution_options()):
+                        if opts != dict(env.ueng.get_execution_options()):
                             ctx.violation("execution-options-leak:after-" + action,
                                           f"new Connection has execution options {opts}",
                                           {"config": config, "users": env.users_done})
@@ -489,6 +561,10 @@ def run(ctx):
                 "reset": rng.choice(["rollback", "rollback", "rollback", "commit", None]),
                 "reset_listener": rng.random() < 0.3,
                 "engine_iso": rng.choice([None, None, None, "READ UNCOMMITTED", "AUTOCOMMIT"]),
+                "skip_acr": rng.random() < 0.3,
+                "engine_opts": rng.choice([None, None, {"logging_token": "worker"}, {"logging_token": "worker"},
+                                           {"isolation_level": "AUTOCOMMIT"},
+                                           {"logging_token": "w", "isolation_level": "READ UNCOMMITTED"}]),
             }
             n = rng.randint(3, 9)
             acts = ACTIONS if config["reset"] is not None else [a for a in ACTIONS if a not in ("detach",) and a not in FAILED_COMMIT]
